@@ -85,8 +85,11 @@ def build_component(comp, workdir):
     except cxx2c.ExtractError as ex:
         raise Infra('extraction of %s failed: %s' % (comp.source, ex))
     text, tagmap, missing, missing_l = specmod.splice(text, comp)
+    meta['missing_contracts'] = []
     if missing or missing_l:
-        raise Infra('contracts without a matching extracted function/loop (renamed or removed?): %s %s' % (missing, missing_l))
+        # a contract whose function/loop no longer exists is undecided (exit 2), never a verdict; the remaining
+        # contracts are still checked so that a violation elsewhere is reported
+        meta['missing_contracts'] = sorted(set(missing) | set('%s#loop%d' % k for k in missing_l))
     cfile = os.path.join(workdir, comp.name + '.c')
     open(cfile, 'w').write(text)
     meta['tagmap'] = tagmap
@@ -185,9 +188,15 @@ def run_group(comp, g, meta, workdir, tier, backend=None, secondary=False):
         res['infra'] = 'goto-cc failed: ' + (err or out)[-1500:]
         return res
     gi = ['goto-instrument', '--dfcc', hname]
+    gone = set(meta.get('missing_contracts', []))
     if g.enforce:
+        if g.enforce in gone or g.enforce not in meta['sigs']:
+            res['infra'] = 'enforced function %s is no longer extracted (renamed or removed?)' % g.enforce
+            return res
         gi += ['--enforce-contract', g.enforce]
     for r in g.replace:
+        if r in gone or r not in meta['sigs']:
+            continue   # the callee no longer exists, so there is no call to replace
         gi += ['--replace-call-with-contract', r]
     if not g.no_loop_contracts:
         gi += ['--apply-loop-contracts']
@@ -338,7 +347,11 @@ def main():
                 metas[c.name] = build_component(c, os.path.join(workdir, c.name))
             except Infra as ex:
                 infra.append(str(ex))
-                continue
+                # the bounded native stand-ins do not depend on the extraction: still run them
+                metas[c.name] = {'missing_contracts': [], 'sigs': {}, 'tagmap': {}, 'cfile': '', 'static_facts': []}
+                gs = [g for g in gs if g.native]
+            if metas[c.name]['missing_contracts']:
+                infra.append('%s: contracts without a matching extracted function/loop (renamed or removed?): %s' % (c.name, ', '.join(metas[c.name]['missing_contracts'])))
             for g in gs:
                 if g.tier == 'thorough' and a.tier != 'thorough' and not a.group:
                     deferred.append(g.name)
